@@ -19,6 +19,7 @@ package clientcredentials
 import (
 	"context"
 	"crypto/sha256"
+	"encoding/binary"
 	"encoding/hex"
 	"io"
 	"net/http"
@@ -100,6 +101,13 @@ func (c *Config) calculateCacheKey() string {
 	digest.Write(stringx.ToBytes(c.TokenURL))
 	digest.Write([]byte{0})
 	digest.Write(stringx.ToBytes(strings.Join(c.Scopes, " ")))
+
+	// the ttl can be overridden on the rule level. An entry cached with a longer ttl configured
+	// for one rule must not be used by another rule beyond the shorter ttl configured for it
+	if c.TTL != nil {
+		digest.Write([]byte{0})
+		digest.Write(binary.LittleEndian.AppendUint64(nil, uint64(*c.TTL)))
+	}
 
 	return hex.EncodeToString(digest.Sum(nil))
 }
